@@ -363,6 +363,15 @@ def rule_stale_check_sees_stored_nodes(ctx, rid, rr):
             ok = norm(pr.body) == f"{pr.args.args[0].arg} not in {regp}"
         ctx.ob(rid, f"{f.short}/registered-literals-kept", ok, loc(f, c), "only unregistered source literals are dropped" if ok else
                "registered literals can be dropped before the stale check (their stores are never examined)", norm(c)[:120])
+    # nothing else transforms the examined plan before the engine call
+    for c in f.own_calls():
+        fs = m.callee_funcs(f, c)
+        other_prune = any(g.module.name.endswith("pruning") and g.name != "prune_source_literals" for g in fs)
+        mut = isinstance(c.func, ast.Attribute) and c.func.attr in ("remove_node", "remove_nodes_from", "remove_edge", "remove_edges_from", "subgraph")
+        if other_prune or mut:
+            ctx.ob(rid, f"{f.short}/examines-whole-plan", False, loc(f, c),
+                   "the stale check removes nodes beyond unregistered source literals before examining the plan: staleness does not "
+                   "propagate through the removed nodes, and a cycle among them is only found after stores were queried", norm(c)[:100])
     # result = nodes whose stale slot is set
     rets = [n for n in f.own_nodes() if isinstance(n, ast.Return) and n.value is not None]
     ok = len(rets) == 1 and isinstance(rets[0].value, ast.SetComp)
@@ -373,3 +382,28 @@ def rule_stale_check_sees_stored_nodes(ctx, rid, rr):
     ok = bool(lcs) and any("is Literal" in norm(c) for lc in lcs for g in lc.generators for c in g.ifs)
     ctx.ob(rid, f"{ps.short}/literals-only", ok, loc(ps), "only exact Literal nodes are pruned as sources" if ok else
            "source pruning is not restricted to Literal nodes: calls can disappear before execution")
+
+
+def rule_apply_examines_whole_plan(ctx, rid, rr):
+    """Between entering the registry application and the stale check, the plan is only copied."""
+    m = ctx.model
+    ap = rr.apply
+    from ..cfg import CFG
+    g = CFG(ap)
+    sc = [c for c in ap.own_calls() if rr.stale in m.callee_funcs(ap, c)]
+    if not sc:
+        raise AnalysisError("stale check call not found")
+    sn = set(g.of_stmt_containing(sc[0], ap.module))
+    before = g.reach([g.entry], avoid=sn)
+    for c in ap.own_calls():
+        cn = g.of_stmt_containing(c, ap.module)
+        if not any(x in before for x in cn):
+            continue
+        fs = m.callee_funcs(ap, c)
+        bad = any(g_.module.name.endswith("pruning") for g_ in fs) or (isinstance(c.func, ast.Attribute) and c.func.attr in (
+            "remove_node", "remove_nodes_from", "remove_edge", "subgraph"))
+        if bad:
+            ctx.ob(rid, f"{ap.short}/no-pruning-before-stale-check", False, loc(ap, c),
+                   "the plan is pruned before the stale check: nodes outside the pruned part are neither examined nor covered by the "
+                   "up-front cycle check", norm(c)[:100])
+    ctx.ob(rid, f"{ap.short}/stale-check-on-whole-plan", True, loc(ap, sc[0]), "examined the calls preceding the stale check")
